@@ -385,7 +385,23 @@ Record obs3 := {
   o_h_xy : bool; o_h_yz : bool; o_h_xz : bool
 }.
 
+(* compact form written by the harness: indices into a pool of values, the five == answers and the
+   three hash-equality answers as bit lists, the five cmp answers as -1 / 0 / 1 *)
+Definition icase := (N * N * N * list bool * list Z * list bool)%type.
 Definition case := (value * value * value * obs3)%type.
+
+Definition nthb (l : list bool) (i : nat) : bool := nth i l false.
+Definition nthz (l : list Z) (i : nat) : Z := nth i l 2.
+
+Definition expand (pool : list value) (c : icase) : case :=
+  match c with (i, j, k, e, cm, h) =>
+    let g n := nth (N.to_nat n) pool Extant in
+    (g i, g j, g k,
+     {| o_eq_xy := nthb e 0; o_eq_yx := nthb e 1; o_eq_yz := nthb e 2; o_eq_xz := nthb e 3; o_eq_xx := nthb e 4;
+        o_cmp_xy := nthz cm 0; o_cmp_yx := nthz cm 1; o_cmp_yz := nthz cm 2; o_cmp_xz := nthz cm 3;
+        o_cmp_xx := nthz cm 4;
+        o_h_xy := nthb h 0; o_h_yz := nthb h 1; o_h_xz := nthb h 2 |})
+  end.
 
 Definition model_obs (x y z : value) : obs3 :=
   {| o_eq_xy := veq x y; o_eq_yx := veq y x; o_eq_yz := veq y z; o_eq_xz := veq x z; o_eq_xx := veq x x;
@@ -401,8 +417,8 @@ Definition obs_eqb (a b : obs3) : bool :=
   (o_cmp_xz a =? o_cmp_xz b) && (o_cmp_xx a =? o_cmp_xx b) &&
   Bool.eqb (o_h_xy a) (o_h_xy b) && Bool.eqb (o_h_yz a) (o_h_yz b) && Bool.eqb (o_h_xz a) (o_h_xz b).
 
-Definition corr_bad (cs : list (N * case)) : list N :=
-  map fst (filter (fun c => match snd c with (x, y, z, o) => negb (obs_eqb (model_obs x y z) o) end) cs).
+Definition case_corr_ok (c : case) : bool :=
+  match c with (x, y, z, o) => obs_eqb (model_obs x y z) o end.
 
 (* The laws of the property, evaluated on the implementation's answers.  Returns the numbers of
    the clauses that fail: 1 eq reflexive, 2 eq symmetric, 3 eq transitive, 4 eq => same hash,
@@ -441,8 +457,11 @@ Definition excused (c : case) : list Z :=
     filter (fun n => fl && order_law n) (law_failures o)
   end.
 
-Definition oracle_bad (cs : list (N * case)) : list N :=
-  map fst (filter (fun c => match unexcused (snd c) with [] => false | _ => true end) cs).
+Definition corr_bad_p (pool : list value) (cs : list (N * icase)) : list N :=
+  map fst (filter (fun c => negb (case_corr_ok (expand pool (snd c)))) cs).
 
-Definition known_hits (cs : list (N * case)) : list N :=
-  map fst (filter (fun c => match excused (snd c) with [] => false | _ => true end) cs).
+Definition oracle_bad_p (pool : list value) (cs : list (N * icase)) : list N :=
+  map fst (filter (fun c => match unexcused (expand pool (snd c)) with [] => false | _ => true end) cs).
+
+Definition known_hits_p (pool : list value) (cs : list (N * icase)) : list N :=
+  map fst (filter (fun c => match excused (expand pool (snd c)) with [] => false | _ => true end) cs).
